@@ -381,6 +381,58 @@ func c02Worker(c *core.Collector, x *Ctx) {
 			}
 		}
 	})
+	// ---- (c1b) special-count sweep (as in C01, here for the decoder): valid frames whose payload holds exactly k bytes that travel
+	// escaped, k = 0..140 and around 256/512/1023, checksum steered to 7e / 7d / other: the unescaper's output sizing depends on k
+	{
+		var ks []int
+		for k := 0; k <= 140; k++ {
+			ks = append(ks, k)
+		}
+		ks = append(ks, 250, 251, 252, 253, 254, 255, 256, 257, 258, 505, 506, 507, 508, 509, 510, 511, 512, 513, 514, 1015, 1016, 1017, 1018, 1019, 1020, 1021, 1022, 1023)
+		core.ParallelFor(len(ks)*3*4, ncpu(), func(i int) {
+			r := core.NewRand(c.Seed, "c02k", uint64(i))
+			k := ks[i%len(ks)]
+			target := []byte{0, 0x7e, 0x7d}[i/len(ks)%3]
+			v2019 := i/len(ks)/3%2 == 1
+			frag := i/len(ks)/6%2 == 1
+			n := 6
+			if v2019 {
+				n = 10
+			}
+			bcd := make([]byte, n)
+			for j := range bcd {
+				bcd[j] = byte(r.Intn(10))<<4 | byte(r.Intn(10))
+			}
+			l := min(1023, k+2+r.Intn(20))
+			body := make([]byte, l)
+			for j := range body {
+				body[j] = byte(0x10 + r.Intn(0x60))
+			}
+			for _, p := range r.Perm(l)[:k] {
+				body[p] = []byte{0x7e, 0x7d}[r.Intn(2)]
+			}
+			q := ref.Params{ID: 0x0200, V2019: v2019, VersionByt: 1, Fragmented: frag, Sum: 3, No: 2, BCD: bcd, Serial: uint16(0x1000 + r.Intn(0x6000)), Body: body}
+			if target != 0 && l-k >= 2 {
+				var fill []int
+				for j := range body {
+					if body[j] != 0x7e && body[j] != 0x7d {
+						fill = append(fill, j)
+					}
+				}
+				a, b := fill[0], fill[len(fill)-1]
+				for try := 0; try < 64; try++ {
+					p := ref.Payload(q)
+					body[b] ^= p[len(p)-1] ^ target
+					if body[b] != 0x7e && body[b] != 0x7d {
+						break
+					}
+					body[a] = byte(0x10 + r.Intn(0x60))
+				}
+			}
+			check(ref.Build(q), "special-count", true)
+			c.Count("special_count_sweep_frames", 1)
+		})
+	}
 	// ---- (c2) phone rendering: every position of a single non-zero nibble, pairs of nibbles, all-zero, all-f
 	{
 		var phones [][]byte
